@@ -15,8 +15,6 @@ import (
 	"github.com/onosproject/onos-config/pkg/utils/v2/tree"
 	valuesv2 "github.com/onosproject/onos-config/pkg/utils/v2/values"
 	"github.com/openconfig/gnmi/proto/gnmi"
-
-	"strings"
 )
 
 func createUpdate(prefix *gnmi.Path, path *gnmi.Path, configValues []*configapi.PathValue, encoding gnmi.Encoding) ([]*gnmi.Update, error) {
@@ -62,7 +60,7 @@ func createUpdate(prefix *gnmi.Path, path *gnmi.Path, configValues []*configapi.
 				//  If prefix is longer than the path, it can't possibly match
 				continue
 			}
-			pathCv, err := utils.ParseGNMIElements(strings.Split(strings.Trim(cv.Path, "/"), "/"))
+			pathCv, err := utils.ParseGNMIElements(utils.SplitPath(cv.Path))
 			if err != nil {
 				return nil, err
 			}
